@@ -159,7 +159,8 @@ class Describer:
             kt = z3.StringVal(ck) if k[1].tag == "str" else z3.IntVal(ck)
             if not z3.is_true(self.ev(z3.Select(keys, kt))):
                 continue
-            for s2, v in E.dict_get(st, dv, V(k[1], kt)):
+            outs = list(E.dict_get(st, dv, V(k[1], kt)))
+            for s2, v in outs:
                 ok = True
                 for c in s2.pc[len(st.pc):]:
                     if not z3.is_true(self.ev(c)):
@@ -167,6 +168,14 @@ class Describer:
                 if ok:
                     items.append([ck, self.value(v)])
                     break
+            else:
+                # the key is present but the model says nothing usable about its value (the path never read it): any
+                # well-formed value of the declared kind will do for the replay
+                for s2, v in outs[:1]:
+                    try:
+                        items.append([ck, self.value(v)])
+                    except Exception:
+                        pass
         self.dicts[key]["items"] = items
         return {"__dict__": key}
 
